@@ -206,6 +206,14 @@ def handle (op : String) (args : List String) (rhs : String) : Verdict :=
   | "h2cvec", [curve, dst, msg, expected] =>
     if rhs != expected then .bad "h2c.rfc-vector" ("expected=" ++ expected ++ " observed=" ++ rhs)
     else h2cHashed curve (hexToBytes? dst) (hexToBytes? msg) rhs
+  -- `h2chyp <curve>`: the hypotheses of the map theorems hold for the suite's constants (a failure is a broken tie)
+  | "h2chyp", [curve] =>
+    match H2C.theoremHypotheses curve with
+    | some hs =>
+      match hs.filter (fun h => !h.2) with
+      | [] => mirror "ok" rhs
+      | bad => .diff ("hypotheses failing for " ++ curve ++ ": " ++ ", ".intercalate (bad.map (·.1)))
+    | none => .unsupported ("C19 h2chyp " ++ curve)
   | _, _ => .unsupported ("C19 op " ++ op)
 
 end BronVerif.Drive.C19
